@@ -393,6 +393,8 @@ func (ev *Evaluator) Eval(e ast.Expr, env *Env) Value {
 			return ev.Eval(init, NewEnv(nil))
 		}
 		return ev.unk(x, "unbound identifier "+x.Name)
+	case *ast.FuncLit:
+		return &Closure{Lit: x, Env: env}
 	case *ast.CompositeLit:
 		return ev.evalLit(x, env)
 	case *ast.UnaryExpr:
@@ -791,6 +793,39 @@ func (ev *Evaluator) evalCall(x *ast.CallExpr, env *Env) Value {
 		}
 		return Tuple(res)
 	}
+	// a function literal or a variable holding one
+	switch x.Fun.(type) {
+	case *ast.FuncLit, *ast.Ident:
+		if cl, ok := ev.Eval(x.Fun, env).(*Closure); ok {
+			var args []Value
+			for _, a := range x.Args {
+				args = append(args, ev.copyIfValueType(ev.Eval(a, env), ev.Info.TypeOf(a)))
+			}
+			return ev.callClosure(cl, args, x)
+		}
+	}
+	// sort.Search(n, f): the smallest index in [0, n) for which f is true, by the library's binary search
+	if types.ExprString(x.Fun) == "sort.Search" && len(x.Args) == 2 {
+		n, ok1 := AsInt(ev.Eval(x.Args[0], env))
+		cl, ok2 := ev.Eval(x.Args[1], env).(*Closure)
+		if !ok1 || !ok2 {
+			return ev.unk(x, "sort.Search with undetermined arguments")
+		}
+		i, j := 0, n
+		for i < j {
+			h := int(uint(i+j) >> 1)
+			b, ok := AsBool(ev.callClosure(cl, []Value{Int{int64(h)}}, x))
+			if !ok {
+				return ev.unk(x, "sort.Search predicate not determined")
+			}
+			if !b {
+				i = h + 1
+			} else {
+				j = h
+			}
+		}
+		return Int{int64(i)}
+	}
 	// uninterpreted library call with constant arguments (time.Date, …)
 	name := types.ExprString(x.Fun)
 	c := &Call{Fn: name, Pos: x.Pos()}
@@ -904,6 +939,51 @@ const (
 
 type Frame struct {
 	Results []Value
+}
+
+// Closure is a function literal with the environment it was created in (variables captured by reference).
+type Closure struct {
+	Lit *ast.FuncLit
+	Env *Env
+}
+
+// callClosure evaluates a closure on argument values.
+func (ev *Evaluator) callClosure(cl *Closure, args []Value, at ast.Node) Value {
+	env := NewEnv(cl.Env)
+	i := 0
+	if cl.Lit.Type.Params != nil {
+		for _, f := range cl.Lit.Type.Params.List {
+			for _, n := range f.Names {
+				if i < len(args) && n.Name != "_" {
+					env.Bind(ev.Info.Defs[n], args[i])
+				}
+				i++
+			}
+			if len(f.Names) == 0 {
+				i++
+			}
+		}
+	}
+	ev.depth++
+	defer func() { ev.depth-- }()
+	if ev.depth > 16 {
+		return ev.unk(at, "call depth")
+	}
+	fr := &Frame{}
+	c := ev.block(cl.Lit.Body.List, env, fr)
+	if c == ctlAbort {
+		return ev.unk(at, "closure left the evaluable subset")
+	}
+	if c != ctlReturn {
+		if cl.Lit.Type.Results == nil || len(cl.Lit.Type.Results.List) == 0 {
+			return Tuple(nil)
+		}
+		return ev.unk(at, "closure without a return")
+	}
+	if len(fr.Results) == 1 {
+		return fr.Results[0]
+	}
+	return Tuple(fr.Results)
 }
 
 const maxSteps = 200000
